@@ -16,6 +16,7 @@ From Coq Require Import List NArith ZArith.
 From BBS Require Import Persist.PBL Persist.PBLProofs Persist.Syncer Persist.SyncerProofs
   Persist.LiveActs Persist.LiveCover Persist.LiveRelease Persist.LiveFair
   Persist.ReleaseSafeDefs Persist.ReleaseSafe.
+From BBS Require Import Common.Sx Run.R07 Run.R04P Run.R07MonTop Run.R04PMonAcc Run.R04PMonTraj Run.R04PMonOps Run.R04PMonTop.
 Import ListNotations.
 Local Open Scope nat_scope.
 
@@ -102,4 +103,48 @@ Example straddling_pop_example :
       end
   | _ => False
   end.
+Proof. vm_compute. repeat split; reflexivity. Qed.
+
+(** ---- THE MONITOR IS SILENT ON THE MODEL (Run/R04PMon*.v, ~1500 lines, on top
+    of the C07 infrastructure Run/R07Mon*.v).  [mon04P] is the clause as a check
+    on the implementation's log; [run04Ph inp hints] is the model's own log (PBL.v
+    / Syncer.v + the allocator's accounting; the hints only pick the winner of a
+    storeLock tie, [run04P inp = run04Ph inp []]).  For every input whose restored
+    blocks live at pairwise distinct regions of the device ([dom04P], a decidable
+    boolean) and EVERY hint list none of the four clauses fires: (1) a region is
+    handed out only when the state durably written last lists no block there;
+    (2) every Release() follows the completion of a state write that started
+    after the block's PopFront and omits it, once; (3) at quiescent points where
+    the last PopFront is covered, free + listed = all regions; (4) no panic.
+    Method: the monitor against an abstract accounting of regions (listed /
+    waiting for Release() / released / free, the write in flight with the number
+    of waiting blocks it recorded), one lemma per log event; the model against the
+    same accounting: one quiesce runs at most one NotifyPersistentStateWritten —
+    releasing exactly the recorded prefix of blocksToRelease — followed by at
+    most one GetPersistentState, whose state lists only blocks of the list. ---- *)
+Theorem mon04P_silent_on_model : forall inp hints, dom04P inp = true -> mon04P inp (run04Ph inp hints) = nil.
+Proof. exact mon04P_silent_on_model_h. Qed.
+Print Assumptions mon04P_silent_on_model.
+
+Theorem mon04P_silent_on_model_run04P : forall inp, dom04P inp = true -> mon04P inp (run04P inp) = nil.
+Proof. exact mon04P_silent_on_model_. Qed.
+Print Assumptions mon04P_silent_on_model_run04P.
+
+(** Non-vacuity: 3 regions, one restored block at region 0; PopFront; the release
+    loop's state write fails, is retried and completes: region 0 is released;
+    three PushBacks hand out regions 100, 200 and the freed region 0; a fourth
+    PushBack finds no region. *)
+Definition mon04P_example_input : sx :=
+  (L [L [A 4; A 7; A 0; A 0; L [L [L [A 0; A 100]; A 0; L []; A 1]]];
+      L [L [A 3]; L [A 6; A 0]; L [A 7; A 7]; L [A 8; A 0]; L [A 6; A 1]; L [A 4; A 1]; L [A 4; A 1]; L [A 4; A 1]; L [A 4; A 1]];
+      L [A 3]])%Z.
+
+Example mon04P_domain_example :
+  dom04P mon04P_example_input = true
+  /\ is_marker (run04P mon04P_example_input) = false
+  /\ length (sx_list (sx_nth (run04P mon04P_example_input) 1)) = 9
+  /\ sx_nth (sx_nth (sx_nth (run04P mon04P_example_input) 1) 4) 2
+     = L [L [A 5; A 2; A 1]; L [A 2; A 0; A 0; A 0]]%Z     (* write 2 completes, block 0 (region 0) is released *)
+  /\ sx_nth (sx_nth (sx_nth (run04P mon04P_example_input) 1) 7) 2
+     = L [L [A 1; A 3; A 0]]%Z.                            (* region 0 is handed out again, to block 3 *)
 Proof. vm_compute. repeat split; reflexivity. Qed.
